@@ -80,6 +80,14 @@ constexpr custom_term comma(",", create<no_type>{});
 #define PARSER_ARGS list, terms(comma, number), nterms(list), rules( \
         list(number), \
         list(list, comma, number) >= [](int sum, skip, int x){ return sum + x; }), use_lexer<int_lexer>{}''')
+# a large literal value type (8 KiB) inside the value variant: the fixed stacks of cstring_buffer<N> then need N * 8 KiB, and must stay usable in a constant expression
+GRAMMARS['bigvalue'] = dict(alphabet=['*'], long=['*' * k for k in (0, 1, 2, 7, 50, 100, 200, 400)] + ['*' * 30 + 'x', ' ' * 100 + '**'], code=r'''
+struct Big { int v; char pad[8188]; constexpr Big() : v(0), pad{} {} constexpr Big(int x) : v(x), pad{} {} };
+constexpr nterm<int> root("root"); constexpr nterm<Big> stars("stars");
+#define PARSER_ARGS root, terms('*'), nterms(root, stars), rules( \
+        root(stars) >= [](const Big& b){ return b.v; }, \
+        stars('*') >= [](skip){ return Big(1); }, \
+        stars(stars, '*') >= [](const Big& b, skip){ return Big(b.v + 1); })''')
 GRAMMARS['stars-long'] = dict(GRAMMARS['stars'], long=_long_stars())
 GRAMMARS['recovery-long'] = dict(GRAMMARS['recovery'], long=_long_recovery())
 GRAMMARS['expr-long'] = dict(GRAMMARS['expr'], long=_long_expr())
